@@ -171,7 +171,7 @@ def execute(pid, tier, seed, cases, assumptions, extra_cov=None, budget_s=None, 
         st = r.get('status')
         if kind == 'cover':
             if st == 'uncovered':
-                broken.append('coverage goal(s) of %s unreachable (the harness does not exercise what it claims): %s' % (c.name, [d for _, d, g in r.get('cover', []) if g != 'SATISFIED'][:3]))
+                broken.append('coverage goal(s) of %s unreachable (the harness does not exercise what it claims): %s' % (c.name, ['line %s: %s' % (l, d) for l, d, g in r.get('cover', []) if g != 'SATISFIED'][:3]))
             elif st != 'covered': undecided.append(r['name'])
             continue
         if kind == 'witness':
